@@ -176,6 +176,13 @@ func newWorld(t *testing.T, backend string, rng func(int) int) *world {
 			t.Fatalf("addnode: %v", err)
 		}
 		x.podOf[names[idx]] = pod
+		// labels: half of the nodes are in zone a, the others in zone b
+		if node, err := w.RawStore.GetNode(w.Ctx, names[idx]); err == nil {
+			node.Labels = map[string]string{"zone": []string{"a", "b"}[k%2], "disk": "ssd"}
+			if err := w.RawStore.UpdateNodes(w.Ctx, node); err != nil {
+				t.Fatalf("labels: %v", err)
+			}
+		}
 	}
 	x.nodes = names
 	return x
@@ -195,7 +202,7 @@ func (x *world) storeTerm() (string, map[string]any, []string, map[string]string
 	ids := []string{}
 	nodeOf := map[string]string{}
 	for _, n := range ns {
-		nodeTerms = append(nodeTerms, fmt.Sprintf("(mkNode %s %s %s)", vh.Str(n.Name), vh.Str(n.Podname), vh.Bool(!n.IsDown())))
+		nodeTerms = append(nodeTerms, fmt.Sprintf("(mkNode %s %s %s %s)", vh.Str(n.Name), vh.Str(n.Podname), vh.Bool(!n.IsDown()), labelsTerm(n.Labels)))
 		nodeDesc = append(nodeDesc, map[string]any{"name": n.Name, "pod": n.Podname, "up": !n.IsDown()})
 		wls, err := x.w.RawStore.ListNodeWorkloads(ctx, n.Name, nil)
 		if err != nil {
@@ -213,8 +220,16 @@ func (x *world) storeTerm() (string, map[string]any, []string, map[string]string
 		map[string]any{"nodes": nodeDesc, "workloads": wlDesc}, ids, nodeOf
 }
 
+func labelsTerm(m map[string]string) string {
+	ps := []string{}
+	for _, k := range vh.SortedKeys(m) {
+		ps = append(ps, vh.Pair(vh.Str(k), vh.Str(m[k])))
+	}
+	return vh.List(ps)
+}
+
 func filterTerm(nf *types.NodeFilter) string {
-	return fmt.Sprintf("(mkFilter %s %s %s %s)", vh.Str(nf.Podname), vh.StrList(nf.Includes), vh.StrList(nf.Excludes), vh.Bool(nf.All))
+	return fmt.Sprintf("(mkFilter %s %s %s %s %s)", vh.Str(nf.Podname), vh.StrList(nf.Includes), vh.StrList(nf.Excludes), vh.Bool(nf.All), labelsTerm(nf.Labels))
 }
 
 func boolList(bs []bool) string {
@@ -381,6 +396,17 @@ func (x *world) run(t *testing.T, r *vh.Run, kind string, failKey string, tagsEx
 	x.rec.reset("")
 	// remove/dissociate: the store order oracle = order of workload lock attempts,
 	// completed by the requested ids never attempted
+	if strings.Contains(opTerm, "@REL@") {
+		// release order of the workload locks (Go map order after a failing attempt): oracle of the model
+		rel := []string{}
+		for _, e := range evs {
+			if e.Kind == "Rel" && strings.HasPrefix(e.Key, "clock_") {
+				rel = append(rel, strings.TrimPrefix(e.Key, "clock_"))
+			}
+		}
+		opTerm = strings.Replace(opTerm, "@REL@", vh.StrList(rel), 1)
+		desc["release_order"] = rel
+	}
 	if strings.Contains(opTerm, "@ORDER@") {
 		order := []string{}
 		seen := map[string]bool{}
@@ -536,7 +562,7 @@ func runWorld(t *testing.T, r *vh.Run, x *world, worldNo int, budget int) int {
 		x.run(t, r, "helper-workloads", failKey, tags, func() (string, []string, map[string]any) {
 			arg := append([]string{}, ids...)
 			err := c.VerifE2WithWorkloadsLocked(ctx, arg, ign)
-			return fmt.Sprintf("(OHelperWorkloads %s %s)", vh.StrList(ids), vh.Bool(ign)), nil,
+			return fmt.Sprintf("(OHelperWorkloads %s %s @REL@)", vh.StrList(ids), vh.Bool(ign)), nil,
 				map[string]any{"ids": ids, "ignore_lock": ign, "err": fmt.Sprint(err)}
 		})
 		count++
@@ -598,7 +624,14 @@ func runWorld(t *testing.T, r *vh.Run, x *world, worldNo int, budget int) int {
 		randFilter := func() *types.NodeFilter {
 			switch rng(4) {
 			case 0:
-				return &types.NodeFilter{Podname: pick(rng, x.pods), All: rng(2) == 0}
+				nf := &types.NodeFilter{Podname: pick(rng, x.pods), All: rng(2) == 0}
+				switch rng(4) {
+				case 0:
+					nf.Labels = map[string]string{"zone": pick(rng, []string{"a", "b"})}
+				case 1:
+					nf.Labels = map[string]string{"zone": "a", "disk": pick(rng, []string{"ssd", "hdd"})}
+				}
+				return nf
 			case 1:
 				p := pick(rng, x.pods)
 				ex := []string{}
@@ -907,8 +940,8 @@ func runWorld(t *testing.T, r *vh.Run, x *world, worldNo int, budget int) int {
 			arg := randIDs(rng, ids, true, true)
 			fk := ""
 			// with several ids a failing attempt makes doUnlockAll release the locks taken so far in
-			// Go map order (len(order) != len(locks)): not modelled, and no operation passes several ids
-			if failing && len(uniqStrs(arg)) == 1 {
+			// Go map order: the observed release order is passed to the model as its oracle
+			if failing {
 				fk = "clock_" + pick(rng, arg)
 			}
 			helperWls(arg, rng(5) == 0, fk, nil)
